@@ -92,4 +92,6 @@ def main(a):
         return determinism(a.props, a.runs)
     from . import sensitivity
 
+    if a.what == "benign":
+        return sensitivity.benign(a)
     return sensitivity.main(a)
